@@ -245,8 +245,8 @@ pub fn run(cfg: &Cfg, rep: &mut Report) {
             undefined_suffix!(ElectricPotential, "voltage", [b"HZ", b"S", b"W", b"VV", b"OHM", b"KVV", b"DBW"]);
             undefined_suffix!(Frequency, "frequency", [b"V", b"S", b"HZZ", b"KH", b"DBM"]);
             undefined_suffix!(Time, "time", [b"HZ", b"V", b"SS", b"MSEC", b"H"]);
-            undefined_suffix!(Amplitude<ElectricPotential>, "voltage amplitude", [b"HZPK", b"SPP", b"WRMS", b"APK", b"HZ", b"PKPK"]);
-            undefined_suffix!(Amplitude<ElectricCurrent>, "current amplitude", [b"VPK", b"HZRMS", b"OHMPP"]);
+            undefined_suffix!(Amplitude<ElectricPotential>, "voltage amplitude", [b"HZPK", b"SPP", b"WRMS", b"APK", b"HZ", b"PKPK", b"PK", b"PP", b"RMS"]);
+            undefined_suffix!(Amplitude<ElectricCurrent>, "current amplitude", [b"VPK", b"HZRMS", b"OHMPP", b"PK", b"RMS"]);
             undefined_suffix!(Db<f32, ElectricPotential>, "voltage level", [b"DBW", b"DBM", b"DBX", b"DB1", b"HZ", b"DBHZ", b"DBA", b"DBMW"]);
             undefined_suffix!(Db<f32, Power>, "power level", [b"DBV", b"DBUV", b"DBX", b"DBMV", b"V"]);
             undefined_suffix!(Db<f32, Ratio>, "ratio level", [b"DBV", b"DBM", b"DBW", b"HZ"]);
